@@ -28,8 +28,6 @@ for d in seeded/*/; do
     C11-m6|C11-m7|C11-m8) continue;;   # obsolete: all three drop "t.referencedBy = ot.referencedBy" for a tag deleted and added again during its job; since the definition-number fix the result of such a job is dropped as a whole (demo passes with the change)
     C09-m5) continue;;          # obsolete: its scenario (data query on a tag with converters) is rejected since fix 2d7… (see DESIGN 10.6)
     C11-m2|C11-m4|C11-m5) continue;;   # obsolete for the same reason (the same line, earlier rounds)
-    C13-m1|C13-m4|C15-m1) continue;;   # apply only to the tree they were made on (meta.json repo_head; later fix commits rewrote those lines); their
-                                       # mechanisms are also seeded by C13-m8 (completion of a tagging job returns without releasing) and C15-m4..m7; results: MATRIX_all_at_ebe7785.txt
   esac
   python3 lib/mutants.py run $n $checks 2>&1 | grep -v KNOWN | cut -c1-240 >> $OUT.tmp
 done
